@@ -22,7 +22,7 @@ from .common import TRUSTED, fl, frac, quick, select
 
 PID = "C09"
 MODS = ["acryo._utils", "acryo.backend._api", "acryo.molecules._rotation", "acryo.molecules._group", "acryo.molecules._cut", "acryo.molecules.core",
-        "acryo.loader._misc", "acryo.loader._group", "acryo.loader._base"]
+        "acryo.loader._misc", "acryo.loader._group", "acryo.loader._base", "acryo.loader._loader", "acryo.loader._batch"]
 
 
 def zr(x):
@@ -80,6 +80,7 @@ def _load(patches=None):
 
     LB.np = NPX(LB.np)
     G.np = NPX(G.np)
+    L["acryo.loader._batch"].da = DaskArrayStub()
     return L
 
 
@@ -302,8 +303,79 @@ def sec_group(rec, patches=None):
                 rec.fact(f"group/path{pi}/split[{k}]/partition-of-the-group", found, key="C09/group/split", detail={})
 
 
+def replay_batch(cex):
+    with load.real_modules():
+        from acryo import BatchLoader, Molecules
+
+        rng = np.random.default_rng(0)
+        bad = {}
+        for ids in (["c", "a"], [5, 2], [0, 1]):
+            bl = BatchLoader(order=1, scale=1.0, output_shape=(3, 3, 3))
+            counts = [3, 1]
+            for k, n in zip(ids, counts):
+                bl.add_tomogram(rng.normal(size=(14, 14, 14)).astype(np.float32) + (10 if k == ids[0] else 0), Molecules(rng.uniform(5, 8, size=(n, 3))), image_id=k)
+            sub = bl.construct_dask().compute()
+            err = float(np.abs(bl.average() - sub.mean(axis=0)).max())
+            if err > 1e-4:
+                bad[str(ids)] = err
+        return len(bad) > 0, {"max_abs_err_vs_mean_of_subtomograms": bad}
+
+
+def sec_batch_average(rec, patches=None):
+    """BatchLoader.average = arithmetic mean over all its subtomograms (= molecule-count weighted mean over tomograms)"""
+    L = _load(patches)
+    BT, LD, MC = L["acryo.loader._batch"], L["acryo.loader._loader"], L["acryo.molecules.core"]
+    rec.encodes("acryo/loader/_batch.py:BatchLoader.average (inherited LoaderBase.average)", "acryo/loader/_batch.py:BatchLoader.construct_loading_tasks")
+    API = L["acryo.backend._api"]
+    xp = stubs.make_backend(API, API.np, None)
+    for m in ("acryo.loader._base", "acryo.loader._batch", "acryo.loader._loader"):
+        L[m].Backend = lambda *a, **k: xp
+    vals = {}
+
+    def tasks_of(self, output_shape=None, backend=None):
+        out = []
+        for row in self.molecules.features["row"].to_list():
+            a = SymArray(shape=(1, 1, 1))
+            a[0, 0, 0] = vals[row]
+            out.append(a)
+        return out
+
+    LD.SubtomogramLoader.construct_loading_tasks = tasks_of
+
+    class Img(DaskArrayStub.Array):
+        def __init__(self, root):
+            self.root = root
+            self.shape = (50, 50, 50)
+
+    with L.installed():
+        for ids, counts in ((["c", "a"], [3, 1]), ([5, 2], [1, 2]), ([0, 1], [2, 2]), ([1, 0, 2], [1, 3, 2])):
+            rows = []
+
+            def run():
+                vals.clear()
+                rows.clear()
+                bl = BT.BatchLoader(order=1, scale=1, output_shape=(1, 1, 1))
+                for k, n in zip(ids, counts):
+                    names = [f"t{k}_{i}" for i in range(n)]
+                    for nm in names:
+                        vals[nm] = real(f"v_{nm}")
+                    rows.extend(names)
+                    bl.add_tomogram(Img(f"tomo{k}"), MC.Molecules(np.zeros((n, 3)), None, features={"row": names}), image_id=k)
+                return bl.average()
+
+            for pth in explore(run, max_paths=10):
+                tag = f"batch-average[ids={ids},counts={counts}]"
+                if not pth.ok:
+                    ok, det = replay_batch({})
+                    rec.fact(f"{tag}/runs", False, key="C09/batch/raises", detail={"exc": repr(pth.exc)[:300], **det}, reproduced=ok)
+                    continue
+                out = _obj(pth.result)
+                want = sum((vals[r].e for r in rows), z3.RealVal(0)) / len(rows)
+                rec.query(f"{tag}/mean-over-all-subtomograms", [], zr(out[0, 0, 0]) == want, key="C09/batch/not-the-count-weighted-mean", replay=replay_batch, twin=False)
+
+
 def sections(tier):
-    S = [("seed", "checks.c09", "sec_seed", {}), ("group", "checks.c09", "sec_group", {})]
+    S = [("seed", "checks.c09", "sec_seed", {}), ("group", "checks.c09", "sec_group", {}), ("batch-average", "checks.c09", "sec_batch_average", {})]
     for n in (1, 2, 3, 5):
         S.append((f"average-{n}", "checks.c09", "sec_average", {"n": n}))
     for n in (2, 3, 4) if quick(tier) else (2, 3, 4, 5, 6):
@@ -333,7 +405,7 @@ def run(tier, procs=None, only=None):
                     "the arithmetic mean, that the two halves are the means of a partition into two non-empty sets and that their count-weighted mean is the full average.",
         bounds={"molecules": "N in 1..5 (average), 2..4 quick / 2..6 thorough (split), every outcome of choice(N, N//2) with repetition", "n_set": "1 and 2", "groups": "5 molecules in 2 groups"},
         trusted_base=TRUSTED + ["DaskArrayStub (numpy meaning of stack/mean/compute)", "RngStub (choice returns elements of its argument; stream is a function of the seed)", "real polars"],
-        outside=["'however the tomogram is chunked': dask's chunked reductions are not encoded", "BatchLoader.average (same code path as LoaderBase.average; task order is C03)",
+        outside=["'however the tomogram is chunked': dask's chunked reductions are not encoded",
                  "float32 rounding of the mean"],
         mutants=MUTANTS if (not quick(tier) and not only) else None,
     )
